@@ -187,6 +187,24 @@ CHECKS = {
         'which outcome is right.',
         'order control assumes the runner only iterates what get_functions '
         'returns', 'DESIGN.md section 2, C06'),
+    'C02': (
+        'exhaustive short operator sequences + Hypothesis programs and '
+        'custom tables, differential against an independent '
+        'precedence-climbing parser that reads the operator table as data',
+        'Generated-input search: token structures (atoms, calls, lists, maps, '
+        'parentheses, prefix/suffix/binary operators, index expressions) '
+        'rendered with random whitespace; for the default and legacy tables '
+        'every sequence of <=2 (thorough <=3) infix operators x every '
+        'placement of <=2 prefix operators x an index suffix is enumerated; '
+        'Hypothesis adds programs of up to 12 operators and tables built by '
+        'generated insert_operator sequences (homogeneous groups, aliases, '
+        'word and symbol operators). Oracle: models/precedence.py builds the '
+        'tree from the same token structure and factory.operators; '
+        'whitespace must not change the tree; the insertion API must build '
+        'the table its arguments ask for; duplicate symbols must be rejected.',
+        'the model shares nothing with ply; insertion semantics are a '
+        'characterisation of the documented intent',
+        'DESIGN.md section 2, C02'),
     'C03': (
         'exhaustive short token sequences + Hypothesis token soups / '
         'mutations / unicode text against a validity predicate',
